@@ -18,7 +18,7 @@ Record rc := mk_rc {
   r_members : list member;       (* head: the member being decoded (remaining parts); [] = Complete *)
   r_in : list N;                 (* in_buffer_: bytes read from the descriptor, not yet consumed (avail_in) *)
   r_fd : list N;                 (* bytes still in the descriptor *)
-  r_fdo : list nat;              (* lengths of the next read() calls *)
+  r_fdo : oracle;                (* outcomes of the next read() calls *)
   r_deco : list (nat * nat)      (* decompressor oracle: (input it wants to consume, output it wants to produce) per call *)
 }.
 
@@ -37,7 +37,7 @@ Definition open_member (s : rc) : rc :=
     mk_rc (r_members s) (r_in s ++ g) d o (r_deco s)
   else s.
 
-Definition rc_open (members : list member) (fdo : list nat) (deco : list (nat * nat)) : rc :=
+Definition rc_open (members : list member) (fdo : oracle) (deco : list (nat * nat)) : rc :=
   open_member (mk_rc members [] (concat (map m_comp members)) fdo deco).
 
 (* one Process() call on member m with `avail` input bytes and `room` output bytes *)
